@@ -98,7 +98,7 @@ func c12Verdicts(files []c12File, holes []nd.Hole) map[string]bool {
 	return out
 }
 
-// ZZC12Layout: the same declarations (annotations symbolic) laid out in five ways — canonical order, reversed order,
+// ZZC12Layout: the same declarations (annotations symbolic) laid out in seven ways — canonical order, reversed order,
 // split over two files with blank lines and ordinary comments inserted, local variables consistently renamed — receive the
 // same (statement tag, code) verdicts.
 func ZZC12Layout() {
@@ -113,6 +113,9 @@ func ZZC12Layout() {
 		{{"a.go", pk + c12Var + "\n\n\n// an ordinary comment\n" + c12Use + "\n/* block\n   comment */\n\n" + c12Mock}, {"b.go", pk + "// leading remark\n\n" + c12M + "\n\n\n" + c12T + "\n" + c12New}},
 		{{"z.go", pk + c12New + "\n" + c12T}, {"a.go", pk + c12Use + "\n" + c12Mock + "\n" + c12M + "\n" + c12Var}},
 		{{"a.go", pk + c12T + "\n" + c12Mock + "\n" + c12New + "\n" + c12UseRenamed + "\n" + c12Var + "\n" + c12MRenamed}},
+		// the constructor is the LAST declaration of the first file, the next file STARTS with the package-level initialiser
+		{{"a.go", pk + c12T + "\n" + c12Mock + "\n" + c12New}, {"b.go", pk + c12Var + "\n" + c12Use + "\n" + c12M}},
+		{{"a.go", pk + c12T + "\n" + c12Mock + "\n" + c12Use}, {"b.go", pk + c12Var + "\n" + c12New + "\n" + c12M}},
 	}
 	for _, lay := range layouts {
 		got := c12Verdicts(lay, holes)
@@ -122,4 +125,59 @@ func ZZC12Layout() {
 			}
 		}
 	}
+}
+
+const c12OneLine = `package d
+
+//«annT»
+type T struct {
+	f int
+}
+
+func Reset(t *T, hard bool) {
+	if hard { t.f = 0 } else { t.f = -1 } // TAG-ONELINE
+	t.f = 1; t.f = 1 // TAG-TWICE
+}
+`
+
+const c12Formatted = `package d
+
+//«annT»
+type T struct {
+	f int
+}
+
+func Reset(t *T, hard bool) {
+	if hard {
+		t.f = 0 // TAG-A
+	} else {
+		t.f = -1 // TAG-B
+	}
+	t.f = 1 // TAG-C
+	t.f = 1 // TAG-D
+}
+`
+
+// ZZC12Gofmt: two writes that an unformatted source keeps on one physical line are two reported statements, exactly as
+// after gofmt has put them on separate lines.
+func ZZC12Gofmt() {
+	annT := nd.EnumPad("annT", " @immutable", " plain")
+	holes := []nd.Hole{{"annT", annT}}
+	imm := nd.HasPrefix(annT, " @immutable")
+	count := func(src string, tags ...string) int {
+		prog := nd.LoadProgram([]nd.File{{Pkg: "zzmod/d", Name: "d.go", Src: src}}, holes)
+		res := Analyze(prog, config.Default(), "zzmod/d", Facts{}, "imm")
+		n := 0
+		for _, d := range res.Diags {
+			for _, tag := range tags {
+				if d.Line == nd.LineOf(src, tag) && d.Code == "IMM01" {
+					n++
+				}
+			}
+		}
+		return n
+	}
+	nd.Assert(count(c12OneLine, "TAG-ONELINE") == count(c12Formatted, "TAG-A", "TAG-B"), "if/else written on one line: as many reports as after gofmt")
+	nd.Assert(count(c12OneLine, "TAG-TWICE") == count(c12Formatted, "TAG-C", "TAG-D"), "two statements separated by ';': as many reports as after gofmt")
+	nd.Assert((count(c12Formatted, "TAG-A", "TAG-B", "TAG-C", "TAG-D") == 4) == imm, "formatted version: one report per write")
 }
